@@ -344,13 +344,29 @@ fn tag_of(o: &Object) -> Option<i64> {
     dict_of(o)?.get(b"Tag").ok()?.as_i64().ok()
 }
 
-/// Reference page order of a well-formed page tree: depth-first, left to right.
+/// The object stored under `id`, read through a chain of alias objects (indirect objects whose
+/// whole value is a reference): the id of the last object of the chain and its value. None when
+/// the chain leads to a missing object or does not end within 16 hops.
+fn resolve_alias(doc: &Document, id: ObjectId) -> Option<(ObjectId, &Object)> {
+    let mut id = id;
+    for _ in 0..16 {
+        match doc.objects.get(&id)? {
+            Object::Reference(r) => id = *r,
+            o => return Some((id, o)),
+        }
+    }
+    None
+}
+
+/// Reference page order of a well-formed page tree: depth-first, left to right. A link of the tree
+/// (Root, Pages, a kid entry, a Kids value) may lead through alias objects; a page is listed
+/// under the id its kid ENTRY names (the head of the alias chain, if any).
 fn ref_pages(doc: &Document) -> Vec<ObjectId> {
     fn kids_of<'a>(doc: &'a Document, d: &'a Dictionary) -> &'a [Object] {
         match d.get(b"Kids") {
             Ok(Object::Array(a)) => a,
-            Ok(Object::Reference(r)) => match doc.objects.get(r) {
-                Some(Object::Array(a)) => a,
+            Ok(Object::Reference(r)) => match resolve_alias(doc, *r) {
+                Some((_, Object::Array(a))) => a,
                 _ => &[],
             },
             _ => &[],
@@ -360,7 +376,7 @@ fn ref_pages(doc: &Document) -> Vec<ObjectId> {
         if depth > 64 {
             return;
         }
-        let Some(d) = doc.objects.get(&id).and_then(dict_of) else { return };
+        let Some(d) = resolve_alias(doc, id).and_then(|(_, o)| dict_of(o)) else { return };
         match d.get(b"Type") {
             Ok(Object::Name(t)) if t == b"Page" => out.push(id),
             Ok(Object::Name(t)) if t == b"Pages" => {
@@ -378,7 +394,7 @@ fn ref_pages(doc: &Document) -> Vec<ObjectId> {
         Ok(Object::Reference(r)) => *r,
         _ => return out,
     };
-    let pages = match doc.objects.get(&root).and_then(dict_of).and_then(|c| c.get(b"Pages").ok()) {
+    let pages = match resolve_alias(doc, root).and_then(|(_, o)| dict_of(o)).and_then(|c| c.get(b"Pages").ok()) {
         Some(Object::Reference(r)) => *r,
         _ => return out,
     };
@@ -386,9 +402,17 @@ fn ref_pages(doc: &Document) -> Vec<ObjectId> {
     out
 }
 
+/// The ids of the objects the listed ids denote (alias chains followed).
+fn denoted(doc: &Document, ids: &[ObjectId]) -> Vec<ObjectId> {
+    ids.iter().map(|i| resolve_alias(doc, *i).map(|r| r.0).unwrap_or(*i)).collect()
+}
+
 struct Prep {
     doc: Document,
     tag2old: BTreeMap<i64, ObjectId>,
+    /// objects that carry no tag (alias objects, arrays and scalars as whole objects): their new
+    /// ids are recovered from the references that lead to them
+    untagged: BTreeSet<ObjectId>,
     /// objects reachable from the trailer through references that resolve
     reach: Vec<ObjectId>,
     pages: Vec<ObjectId>,
@@ -406,11 +430,19 @@ fn collect_refs(o: &Object, out: &mut Vec<ObjectId>) {
 
 fn prepare(doc: Document) -> Result<Prep, String> {
     let mut tag2old = BTreeMap::new();
+    let mut untagged = BTreeSet::new();
     let mut nums = BTreeSet::new();
     for (id, o) in &doc.objects {
-        let t = tag_of(o).ok_or_else(|| format!("object {:?} carries no integer /Tag (outside the check's domain)", id))?;
-        if tag2old.insert(t, *id).is_some() {
-            return Err(format!("tag {} used twice (outside the check's domain)", t));
+        match tag_of(o) {
+            Some(t) => {
+                if tag2old.insert(t, *id).is_some() {
+                    return Err(format!("tag {} used twice (outside the check's domain)", t));
+                }
+            }
+            None if dict_of(o).is_some() => return Err(format!("dictionary / stream object {:?} carries no integer /Tag (outside the check's domain)", id)),
+            None => {
+                untagged.insert(*id);
+            }
         }
         if !nums.insert(id.0) {
             return Err(format!("object number {} used twice (outside the property's domain)", id.0));
@@ -430,7 +462,7 @@ fn prepare(doc: Document) -> Result<Prep, String> {
     }
     reach.sort();
     let pages = ref_pages(&doc);
-    Ok(Prep { doc, tag2old, reach, pages })
+    Ok(Prep { doc, tag2old, untagged, reach, pages })
 }
 
 #[derive(Debug, Clone)]
@@ -610,6 +642,66 @@ fn add_bookmarks(d: &mut Document, bms: &[Bm]) -> Result<(), String> {
     Ok(())
 }
 
+/// Walk an object and its renumbered counterpart in parallel and list the pairs (old target, new
+/// target) of the references found at the same place.
+fn pair_refs(o: &Object, n: &Object, out: &mut Vec<(ObjectId, ObjectId)>) {
+    match (o, n) {
+        (Object::Reference(a), Object::Reference(b)) => out.push((*a, *b)),
+        (Object::Array(x), Object::Array(y)) if x.len() == y.len() => x.iter().zip(y.iter()).for_each(|(a, b)| pair_refs(a, b, out)),
+        (Object::Dictionary(x), Object::Dictionary(y)) => pair_dict_refs(x, y, out),
+        (Object::Stream(x), Object::Stream(y)) => pair_dict_refs(&x.dict, &y.dict, out),
+        _ => {}
+    }
+}
+
+fn pair_dict_refs(x: &Dictionary, y: &Dictionary, out: &mut Vec<(ObjectId, ObjectId)>) {
+    for (k, v) in x.iter() {
+        if let Ok(w) = y.get(k) {
+            pair_refs(v, w, out);
+        }
+    }
+}
+
+/// The renaming of the objects that carry no tag. A reachable one is named by a reference inside
+/// an object whose counterpart is already known (the trailer, a tagged object, or an untagged
+/// object found this way), so its new id is whatever that reference has become - provided that
+/// is an untagged object nobody else has claimed; the content comparison then decides whether the
+/// pair really corresponds. Untagged objects no reference leads to (unreachable ones, and the
+/// victims of a wrong rewrite) are paired in ascending order within their generation: they only
+/// have to be renumbered.
+fn recover_untagged(p: &Prep, d: &Document, new_untagged: BTreeSet<ObjectId>, rho: &mut BTreeMap<ObjectId, ObjectId>) -> Result<(), String> {
+    let mut todo: Vec<(ObjectId, ObjectId)> = vec![];
+    let mut next = 0usize;
+    pair_dict_refs(&p.doc.trailer, &d.trailer, &mut todo);
+    for old in &p.reach {
+        if let Some(new) = rho.get(old) {
+            pair_refs(&p.doc.objects[old], &d.objects[new], &mut todo);
+        }
+    }
+    let mut free = new_untagged;
+    while next < todo.len() {
+        let (a, b) = todo[next];
+        next += 1;
+        if !p.untagged.contains(&a) || rho.contains_key(&a) || !free.contains(&b) {
+            continue;
+        }
+        free.remove(&b);
+        rho.insert(a, b);
+        pair_refs(&p.doc.objects[&a], &d.objects[&b], &mut todo);
+    }
+    let rest: Vec<ObjectId> = p.untagged.iter().filter(|u| !rho.contains_key(u)).cloned().collect();
+    for u in rest {
+        match free.iter().find(|f| f.1 == u.1).cloned() {
+            Some(f) => {
+                free.remove(&f);
+                rho.insert(u, f);
+            }
+            None => return Err(format!("generation changed: no object of generation {} is left for old object {} {}", u.1, u.0, u.1)),
+        }
+    }
+    Ok(())
+}
+
 /// Execute the real code on one case and compare against the statement of the property.
 fn run_case(p: &Prep, bms: &[Bm], start: Option<u32>) -> Outcome {
     let mut d = p.doc.clone();
@@ -642,13 +734,32 @@ fn run_final(p: &Prep, mut d: Document, start: Option<u32>) -> Outcome {
     }
     // rho from the tags
     let mut rho: BTreeMap<ObjectId, ObjectId> = BTreeMap::new();
+    let mut new_untagged: BTreeSet<ObjectId> = BTreeSet::new();
     for (nid, o) in &d.objects {
-        let Some(old) = tag_of(o).and_then(|t| p.tag2old.get(&t)) else {
+        let Some(t) = tag_of(o) else {
+            if dict_of(o).is_some() {
+                out.fatal = Some(format!("object {} {} has no tag after renumbering: {}", nid.0, nid.1, show(o)));
+                return out;
+            }
+            new_untagged.insert(*nid);
+            continue;
+        };
+        let Some(old) = p.tag2old.get(&t) else {
             out.fatal = Some(format!("object {} {} has no known tag after renumbering: {}", nid.0, nid.1, show(o)));
             return out;
         };
         if rho.insert(*old, *nid).is_some() {
             out.fatal = Some(format!("two objects carry the tag of old object {} {}", old.0, old.1));
+            return out;
+        }
+    }
+    if new_untagged.len() != p.untagged.len() {
+        out.fatal = Some(format!("{} objects without a tag (alias objects, arrays, scalars) before, {} afterwards", p.untagged.len(), new_untagged.len()));
+        return out;
+    }
+    if !p.untagged.is_empty() {
+        if let Err(e) = recover_untagged(p, &d, new_untagged, &mut rho) {
+            out.fatal = Some(e);
             return out;
         }
     }
@@ -701,12 +812,13 @@ fn run_final(p: &Prep, mut d: Document, start: Option<u32>) -> Outcome {
             None => out.mis.push(Mis::Content(format!("bookmark #{} disappeared", id))),
         }
     }
-    // page order
-    let want: Vec<ObjectId> = p.pages.iter().map(|x| rho[x]).collect();
+    // page order: the pages the yielded ids denote (a kid entry may name an alias object that stands for the page)
+    let want: Vec<ObjectId> = denoted(&p.doc, &p.pages).iter().map(|x| rho[x]).collect();
     match util::guard(|| d.page_iter().collect::<Vec<ObjectId>>()) {
         Ok(got) => {
-            if got != want {
-                out.mis.push(Mis::Content(format!("page order: page_iter() yields [{}], expected rho(old order) = [{}]", ids_str(&got), ids_str(&want))));
+            let got_pages = denoted(&d, &got);
+            if got_pages != want {
+                out.mis.push(Mis::Content(format!("page order: page_iter() yields [{}] which denote [{}], expected rho(old order) = [{}]", ids_str(&got), ids_str(&got_pages), ids_str(&want))));
             }
         }
         Err(e) => out.fatal = Some(format!("page_iter after renumbering: {}", e)),
@@ -1780,6 +1892,435 @@ fn family_h(run: &Run, shv: &Shared) {
 }
 
 // ---------------------------------------------------------------------------------------------
+// family L: alias objects (indirect objects whose whole value is a reference), arrays and scalars
+// as whole objects
+
+/// (bit, name, what the feature adds)
+const ALIAS_FEATURES: [(&str, &str); 16] = [
+    ("trailer", "trailer /Al -> alias -> tagged dictionary T (T is also referenced directly)"),
+    ("only", "catalog /Only -> alias -> tagged dictionary T2 that nothing else references; T2 refers back to the catalog, the first page and the alias"),
+    ("array", "catalog /AlArr -> alias -> array object [7001 cat lastpage T [firstpage]] that nothing else references"),
+    ("contents", "last page /Contents -> alias -> the content stream"),
+    ("kid", "the Kids entry of the second page is an alias -> that page"),
+    ("chain", "catalog /Chain -> alias -> alias (-> alias) -> T, first page /Mid -> the second alias of the chain"),
+    ("dangling", "catalog /AlD -> two aliases, each -> an id no object has (inside the new range / a stale generation)"),
+    ("self", "catalog /AlS -> alias -> itself"),
+    ("scalars", "integer, string, name and null as whole objects, referenced from the catalog, the first page, T and the trailer; an alias -> the integer object"),
+    ("bookmark", "catalog /Dest -> alias -> first page; the alias is a bookmark target"),
+    ("kidsarr", "root /Kids -> alias -> array object holding the kid entries"),
+    ("parent", "first page /Parent -> alias -> root Pages node"),
+    ("root", "trailer /Root -> alias -> catalog"),
+    ("pages", "catalog /Pages -> alias -> root Pages node"),
+    ("interkid", "the root's Kids entry for the intermediate Pages node is an alias -> that node (3 pages only)"),
+    ("orphan", "an alias -> T that nothing references (it only has to be renumbered)"),
+];
+
+#[derive(Clone, Debug, PartialEq)]
+struct AliasSpec {
+    /// 2 pages under the root, or 3: the first under the root, the others under an intermediate node
+    k: usize,
+    feats: u32,
+    /// length of the alias chain of feature "chain" (2 or 3)
+    chain: usize,
+}
+
+impl AliasSpec {
+    fn has(&self, name: &str) -> bool {
+        let bit = ALIAS_FEATURES.iter().position(|f| f.0 == name).unwrap();
+        self.feats & (1 << bit) != 0 && !(name == "interkid" && self.k < 3)
+    }
+    fn to_json(&self) -> Value {
+        let names: Vec<&str> = ALIAS_FEATURES.iter().map(|f| f.0).filter(|f| self.has(f)).collect();
+        json!({"pages": self.k, "features": names, "chain": self.chain})
+    }
+    /// Role names in canonical order.
+    fn roles(&self) -> Vec<String> {
+        let mut r: Vec<String> = vec!["cat".into(), "root".into()];
+        if self.k >= 3 {
+            r.push("inter".into());
+        }
+        for i in 1..=self.k {
+            r.push(format!("p{}", i));
+        }
+        r.push("strm".into());
+        r.push("t".into());
+        let mut add = |f: &str, names: &[&str]| {
+            if self.has(f) {
+                r.extend(names.iter().map(|n| n.to_string()));
+            }
+        };
+        add("trailer", &["a_t"]);
+        add("only", &["t2", "a_only"]);
+        add("array", &["arr", "a_arr"]);
+        add("contents", &["a_cont"]);
+        add("kid", &["a_kid"]);
+        add("chain", if self.chain >= 3 { &["a_c1", "a_c2", "a_c3"] } else { &["a_c1", "a_c2"] });
+        add("dangling", &["a_d1", "a_d2"]);
+        add("self", &["a_self"]);
+        add("scalars", &["int", "str", "nam", "nul", "a_int"]);
+        add("bookmark", &["a_bm"]);
+        add("kidsarr", &["karr", "a_karr"]);
+        add("parent", &["a_parent"]);
+        add("root", &["a_root"]);
+        add("pages", &["a_pages"]);
+        add("interkid", &["a_ikid"]);
+        add("orphan", &["a_orph"]);
+        r
+    }
+    fn page_roles(&self) -> Vec<usize> {
+        let base = if self.k >= 3 { 3 } else { 2 };
+        (base..base + self.k).collect()
+    }
+}
+
+struct AliasDoc {
+    doc: Document,
+    /// the Page dictionaries in page order
+    pages: Vec<ObjectId>,
+    /// what a bookmark may point at: first page, last page, the bookmark alias, the alias kid
+    targets: Vec<ObjectId>,
+}
+
+/// The document of `spec` with role i stored under `ids[i]`.
+fn build_alias(spec: &AliasSpec, ids: &[ObjectId], dang: &[ObjectId]) -> AliasDoc {
+    let roles = spec.roles();
+    assert_eq!(roles.len(), ids.len());
+    let id = |name: &str| -> ObjectId { ids[roles.iter().position(|r| r == name).unwrap_or_else(|| panic!("no role {}", name))] };
+    let tag = |name: &str| -> Object { Object::Integer(100 + roles.iter().position(|r| r == name).unwrap() as i64) };
+    let has = |f: &str| spec.has(f);
+    let k = spec.k;
+    let pname = |i: usize| format!("p{}", i);
+    let pages: Vec<ObjectId> = (1..=k).map(|i| id(&pname(i))).collect();
+    let mut doc = Document::with_version("1.5");
+    let mut put = |name: &str, o: Object| {
+        assert!(doc.objects.insert(id(name), o).is_none(), "duplicate id in generator");
+    };
+    // catalog
+    let mut c = dict(vec![("Type", name("Catalog")), ("Tag", tag("cat")), ("Self", rf(id("cat"))), ("Tref", rf(id("t")))]);
+    c.set("Pages", rf(id(if has("pages") { "a_pages" } else { "root" })));
+    if has("only") {
+        c.set("Only", rf(id("a_only")));
+    }
+    if has("array") {
+        c.set("AlArr", Object::Array(vec![rf(id("a_arr"))]));
+    }
+    if has("chain") {
+        c.set("Chain", rf(id("a_c1")));
+    }
+    if has("dangling") {
+        c.set("AlD", Object::Array(vec![rf(id("a_d1")), rf(id("a_d2"))]));
+    }
+    if has("self") {
+        c.set("AlS", rf(id("a_self")));
+    }
+    if has("scalars") {
+        c.set("Sc", Object::Array(vec![rf(id("int")), rf(id("str")), rf(id("nam")), rf(id("nul")), rf(id("a_int")), rf(id("int"))]));
+    }
+    if has("bookmark") {
+        c.set("Dest", Object::Array(vec![rf(id("a_bm")), name("Fit")]));
+    }
+    if !dang.is_empty() {
+        c.set("Dang", Object::Array(dang.iter().map(|d| rf(*d)).collect()));
+    }
+    put("cat", Object::Dictionary(c));
+    // page tree
+    let second = rf(id(if has("kid") { "a_kid" } else { "p2" }));
+    let root_kids: Vec<Object> = if k >= 3 { vec![rf(pages[0]), rf(id(if has("interkid") { "a_ikid" } else { "inter" }))] } else { vec![rf(pages[0]), second.clone()] };
+    let mut r = dict(vec![("Type", name("Pages")), ("Tag", tag("root")), ("Count", Object::Integer(k as i64))]);
+    if has("kidsarr") {
+        r.set("Kids", rf(id("a_karr")));
+        put("karr", Object::Array(root_kids));
+        put("a_karr", rf(id("karr")));
+    } else {
+        r.set("Kids", Object::Array(root_kids));
+    }
+    put("root", Object::Dictionary(r));
+    if k >= 3 {
+        let mut kids = vec![second];
+        kids.extend(pages[2..].iter().map(|p| rf(*p)));
+        put(
+            "inter",
+            Object::Dictionary(dict(vec![("Type", name("Pages")), ("Tag", tag("inter")), ("Parent", rf(id("root"))), ("Kids", Object::Array(kids)), ("Count", Object::Integer(k as i64 - 1))])),
+        );
+    }
+    for i in 0..k {
+        let parent = if i == 0 && has("parent") {
+            "a_parent"
+        } else if i == 0 || k < 3 {
+            "root"
+        } else {
+            "inter"
+        };
+        let mut d = dict(vec![
+            ("Type", name("Page")),
+            ("Tag", tag(&pname(i + 1))),
+            ("Parent", rf(id(parent))),
+            ("Next", rf(pages[(i + 1) % k])),
+            ("MediaBox", Object::Array(vec![0.into(), 0.into(), 10.into(), 10.into()])),
+        ]);
+        if i == 0 {
+            d.set("Contents", rf(id("strm")));
+            if has("chain") {
+                d.set("Mid", rf(id("a_c2")));
+            }
+            if has("scalars") {
+                d.set("Sc", rf(id("int")));
+            }
+        }
+        if i == k - 1 && has("contents") {
+            d.set("Contents", Object::Array(vec![rf(id("a_cont"))]));
+        }
+        put(&pname(i + 1), Object::Dictionary(d));
+    }
+    put("strm", Object::Stream(Stream::new(dict(vec![("Tag", tag("strm")), ("Owner", rf(pages[0]))]), b"q Q".to_vec())));
+    let mut t = dict(vec![("Tag", tag("t")), ("Back", rf(id("cat"))), ("Peer", rf(pages[k - 1]))]);
+    if has("scalars") {
+        t.set("Sc", Object::Array(vec![rf(id("int")), rf(id("nam"))]));
+    }
+    put("t", Object::Dictionary(t));
+    // aliases
+    if has("trailer") {
+        put("a_t", rf(id("t")));
+        doc.trailer.set("Al", rf(id("a_t")));
+    }
+    if has("only") {
+        put("t2", Object::Dictionary(dict(vec![("Tag", tag("t2")), ("Back", rf(id("cat"))), ("Pg", rf(pages[0])), ("Me", rf(id("a_only")))])));
+        put("a_only", rf(id("t2")));
+    }
+    if has("array") {
+        put("arr", Object::Array(vec![Object::Integer(7001), rf(id("cat")), rf(pages[k - 1]), rf(id("t")), Object::Array(vec![rf(pages[0])])]));
+        put("a_arr", rf(id("arr")));
+    }
+    if has("contents") {
+        put("a_cont", rf(id("strm")));
+    }
+    if has("kid") {
+        put("a_kid", rf(id("p2")));
+    }
+    if has("chain") {
+        put("a_c1", rf(id("a_c2")));
+        if spec.chain >= 3 {
+            put("a_c2", rf(id("a_c3")));
+            put("a_c3", rf(id("t")));
+        } else {
+            put("a_c2", rf(id("t")));
+        }
+    }
+    if has("dangling") {
+        let far = (4_200_000_000u32, 0u16);
+        put("a_d1", rf(*dang.first().unwrap_or(&far)));
+        put("a_d2", rf(*dang.last().unwrap_or(&far)));
+    }
+    if has("self") {
+        put("a_self", rf(id("a_self")));
+    }
+    if has("scalars") {
+        put("int", Object::Integer(7008));
+        put("str", Object::string_literal("s7008"));
+        put("nam", name("N7008"));
+        put("nul", Object::Null);
+        put("a_int", rf(id("int")));
+        doc.trailer.set("ScT", Object::Array(vec![rf(id("str")), rf(id("int"))]));
+    }
+    if has("bookmark") {
+        put("a_bm", rf(pages[0]));
+    }
+    if has("parent") {
+        put("a_parent", rf(id("root")));
+    }
+    if has("root") {
+        put("a_root", rf(id("cat")));
+    }
+    if has("pages") {
+        put("a_pages", rf(id("root")));
+    }
+    if has("interkid") {
+        put("a_ikid", rf(id("inter")));
+    }
+    if has("orphan") {
+        put("a_orph", rf(id("t")));
+    }
+    if !dang.is_empty() {
+        // stale references (same number, other generation) to every object, found by any traversal before the real ones
+        doc.trailer.set("Aaa", Object::Array(ids.iter().map(|i| rf((i.0, 1 - i.1.min(1)))).collect()));
+    }
+    doc.trailer.set("Root", rf(id(if has("root") { "a_root" } else { "cat" })));
+    doc.trailer.set("ID", Object::Array(vec![Object::string_literal("a"), Object::string_literal("b")]));
+    doc.max_id = ids.iter().map(|i| i.0).max().unwrap_or(0);
+    let mut targets = vec![pages[0], pages[k - 1]];
+    if has("bookmark") {
+        targets.push(id("a_bm"));
+    }
+    if has("kid") {
+        targets.push(id("a_kid"));
+    }
+    AliasDoc { doc, pages, targets }
+}
+
+/// n distinct numbers: dense from 1, dense from 3, or sparse.
+fn alias_numbers(kind: &str, n: usize) -> Vec<u32> {
+    match kind {
+        "dense1" => (1..=n as u32).collect(),
+        "dense3" => (3..n as u32 + 3).collect(),
+        _ => (0..n).map(|i| if i < SPARSE.len() { SPARSE[i] } else { 4_000_000 + (i - SPARSE.len() + 1) as u32 * 1013 }).collect(),
+    }
+}
+
+/// role -> position in the sorted number list. "fwd": canonical order (aliases above what they
+/// stand for), "rev": reversed (aliases below), "mix": a stride walk. The positions of the page
+/// roles are then permuted among themselves by `perm`.
+fn alias_positions(spec: &AliasSpec, layout: &str, perm: &[usize]) -> Vec<usize> {
+    let n = spec.roles().len();
+    let mut pos: Vec<usize> = match layout {
+        "fwd" => (0..n).collect(),
+        "rev" => (0..n).rev().collect(),
+        _ => {
+            let gcd = |mut a: usize, mut b: usize| {
+                while b != 0 {
+                    (a, b) = (b, a % b);
+                }
+                a
+            };
+            let stride = (3..).find(|s| gcd(*s, n) == 1).unwrap();
+            (0..n).map(|i| (i * stride + 1) % n).collect()
+        }
+    };
+    let pr = spec.page_roles();
+    let held: Vec<usize> = pr.iter().map(|r| pos[*r]).collect();
+    for (j, r) in pr.iter().enumerate() {
+        pos[*r] = held[perm[j]];
+    }
+    pos
+}
+
+fn alias_gen(spec: &AliasSpec, numbers: &str, layout: &str, perm: &[usize], gmask: &str, dang_for: u32) -> (Vec<ObjectId>, Vec<ObjectId>) {
+    let n = spec.roles().len();
+    let set = alias_numbers(numbers, n);
+    let pos = alias_positions(spec, layout, perm);
+    let ids: Vec<ObjectId> = (0..n).map(|i| (set[pos[i]], if gmask == "alt" && i % 2 == 1 { 1 } else { 0 })).collect();
+    let dang = dangling(&ids, dang_for);
+    (ids, dang)
+}
+
+fn alias_feature_sets(thorough: bool) -> Vec<u32> {
+    let nf = ALIAS_FEATURES.len() as u32;
+    let all = (1u32 << nf) - 1;
+    let mut v: Vec<u32> = vec![0, all];
+    for i in 0..nf {
+        v.push(1 << i);
+        v.push(all & !(1 << i));
+        for j in i + 1..nf {
+            v.push((1 << i) | (1 << j));
+            if thorough {
+                for l in j + 1..nf {
+                    v.push((1 << i) | (1 << j) | (1 << l));
+                }
+            }
+        }
+    }
+    v.sort();
+    v.dedup();
+    v
+}
+
+const EXPECTED_L: &str = "an indirect object whose whole value is a reference (or an array, or a scalar) is an object like any other: it gets its new number, the reference it holds is renamed, and whatever is reachable only through it is renamed too - numbers start..start+n-1, generations kept, max_id = last; trailer, every reachable object, every bookmark target and the page order equal the originals under the renaming (tagged objects: read off the tags; untagged objects: read off the references that lead to them); dangling references still resolve to nothing";
+
+fn family_l(run: &Run, shv: &Shared) {
+    let thorough = run.thorough;
+    let page_feats: u32 = ["kid", "kidsarr", "bookmark", "pages", "interkid", "contents"].iter().map(|f| 1u32 << ALIAS_FEATURES.iter().position(|x| x.0 == *f).unwrap()).sum();
+    // work item: (spec, numbers, layout, page permutation)
+    let mut work: Vec<(AliasSpec, &str, &str, Vec<usize>)> = vec![];
+    let mut specs = 0u64;
+    for k in [3usize, 2] {
+        for feats in alias_feature_sets(thorough) {
+            for chain in [2usize, 3] {
+                let spec = AliasSpec { k, feats, chain };
+                // the chain length only matters when the chain is there; 2 pages cannot have the alias for the intermediate node
+                if (chain == 3 && !spec.has("chain")) || (k == 2 && feats & (1 << 14) != 0 && feats.count_ones() <= 3) {
+                    continue;
+                }
+                // 2 pages: the single features and the two big sets only (thorough: everything)
+                if k == 2 && !thorough && feats.count_ones() == 2 {
+                    continue;
+                }
+                specs += 1;
+                let all_perms = thorough || feats & page_feats != 0;
+                for numbers in ["dense1", "dense3", "sparse"] {
+                    for layout in ["fwd", "rev", "mix"] {
+                        for p in perms(k) {
+                            let rev_or_id = p.windows(2).all(|w| w[0] < w[1]) || p.windows(2).all(|w| w[0] > w[1]);
+                            if all_perms || rev_or_id {
+                                work.push((spec.clone(), numbers, layout, p));
+                            }
+                        }
+                    }
+                }
+            }
+        }
+    }
+    let sampled = AtomicU64::new(0);
+    util::par_for(work.len(), |w| {
+        let (spec, numbers, layout, perm) = &work[w];
+        let n = spec.roles().len();
+        let mut t = Tally::default();
+        for gmask in ["none", "alt"] {
+            let (ids0, _) = alias_gen(spec, numbers, layout, perm, gmask, 1);
+            let (min, max) = (ids0.iter().map(|i| i.0).min().unwrap(), ids0.iter().map(|i| i.0).max().unwrap());
+            for start in start_values(n, min, max) {
+                let s = start.unwrap_or(1);
+                let (ids, dang) = alias_gen(spec, numbers, layout, perm, gmask, s);
+                let ad = build_alias(spec, &ids, &dang);
+                let prep = prepare(ad.doc).unwrap_or_else(|e| {
+                    eprintln!("MACHINERY: alias generator: {}", e);
+                    std::process::exit(3)
+                });
+                if denoted(&prep.doc, &prep.pages) != ad.pages {
+                    eprintln!("MACHINERY: alias generator: reference page order {:?} differs from the generator's {:?}", prep.pages, ad.pages);
+                    std::process::exit(3);
+                }
+                t.docs += 1;
+                let gen = json!({"family": "L", "alias": spec.to_json(), "numbers": numbers, "layout": layout, "page_perm": perm, "generations": gmask,
+                                 "ids": spec.roles().iter().zip(ids.iter()).map(|(r, i)| json!([r, i.0, i.1])).collect::<Vec<_>>()});
+                // bookmark lists: none, one on every target, and (alias or last target) with a nested child on the first page
+                let tg = &ad.targets;
+                let mut cfgs: Vec<Vec<Bm>> = vec![vec![]];
+                cfgs.extend(tg.iter().map(|x| vec![(*x, None)]));
+                cfgs.push(vec![(*tg.last().unwrap(), None), (tg[0], Some(0))]);
+                for bms in &cfgs {
+                    let out = run_case(&prep, bms, start);
+                    t.cases += 1;
+                    if out.identity {
+                        t.identity += 1;
+                    } else if start.is_some() {
+                        t.nontrivial += 1;
+                        if out.collision {
+                            t.collision += 1;
+                        }
+                    }
+                    if out.reordered {
+                        t.reordered += 1;
+                    }
+                    if !bms.is_empty() {
+                        t.with_bm += 1;
+                    }
+                    t.with_dang += 1;
+                    if out.failed() {
+                        t.failing += 1;
+                        shv.run.fail(None, case_json(&gen, Some(&prep.doc), bms, start), &vharness::run::truncate(&out.text(), 1500), EXPECTED_L);
+                    }
+                    if spec.feats.count_ones() == 2 && spec.has("only") && spec.has("kid") && !out.identity && bms.len() == 2 && sampled.fetch_add(1, Ordering::Relaxed) < 2 {
+                        shv.run.sample(case_json(&gen, Some(&prep.doc), bms, start));
+                    }
+                }
+            }
+        }
+        flush(run, &t, "L");
+    });
+    run.add("alias_feature_sets_family_l", specs);
+    run.set("alias_features", json!(ALIAS_FEATURES.iter().map(|f| json!([f.0, f.1])).collect::<Vec<_>>()));
+}
+
+// ---------------------------------------------------------------------------------------------
 
 fn parse_id(v: &Value) -> ObjectId {
     (v[0].as_u64().unwrap() as u32, v[1].as_u64().unwrap() as u16)
@@ -1920,6 +2461,8 @@ fn main() {
     family_h(&run, &shv);
     run.set("wall_family_h_s", json!((run.elapsed() * 10.0).round() / 10.0));
     family_w(&run);
+    run.set("wall_family_w_s", json!((run.elapsed() * 10.0).round() / 10.0));
+    family_l(&run, &shv);
     run.exhaustive(true);
     run.finish();
 }
